@@ -287,6 +287,14 @@ def main():
         finally:
             revert()
         print("RESULT %s %s" % (name, rc_all))
+        import json
+        rp = "/verif/seeded/own_results.json"
+        try:
+            allr = json.load(open(rp))
+        except Exception:
+            allr = {}
+        allr[name] = {"note": M[name][4], "file": M[name][0], "results": rc_all}
+        json.dump(allr, open(rp, "w"), indent=1, sort_keys=True)
         return 0
     if a[0] == "suite":
         name = a[1]
